@@ -214,6 +214,13 @@ def world_B(tier):
             for strand in "+-":
                 for fl in ("EUKARYOTIC", "PROKARYOTIC"):
                     yield "B", one_gene_case([reg], strand, gtype, [None], 1, 0, 1, fl)
+        # the plainest non-coding transcript carries no biotype of its own (the gene's type, or nothing at all, is all
+        # there is): it is listed like any other RNA feature
+        for gtype in NC_TYPES + [None]:
+            for strand in "+-":
+                case = one_gene_case([reg], strand, gtype, [None], 1, 0, 1, "EUKARYOTIC" if strand == "+" else "PROKARYOTIC")
+                case["colls"][0]["genes"][0]["tx_type"] = None
+                yield "B", case
 
 
 def gene_menu():
@@ -333,11 +340,12 @@ def build(case):
         par = lib.chrom_parent(c["genome"], c["seqname"], Alphabet.NT_EXTENDED_GAPPED)
         genes = []
         for gi, g in enumerate(c["genes"]):
-            btype = Biotype[g["type"]]
+            btype = Biotype[g["type"]] if g["type"] else None
+            ttype = btype if "tx_type" not in g else (Biotype[g["tx_type"]] if g["tx_type"] else None)
             txs = []
             for ti, t in enumerate(g["txs"]):
                 kw = dict(
-                    transcript_id=f"tx{gi}_{ti}", transcript_symbol=f"txsym{gi}_{ti}", transcript_type=btype,
+                    transcript_id=f"tx{gi}_{ti}", transcript_symbol=f"txsym{gi}_{ti}", transcript_type=ttype,
                     sequence_name=c["seqname"],
                 )
                 if t.get("product"):
